@@ -116,7 +116,14 @@ func c10Real(env *core.Env) *core.Result {
 	}
 	store := world.NewScriptedStore()
 	store.Put("ca", "s", trusted.Root().Cert)
-	v, err := buildVerifier(vcfg{level: level, stores: stores, identities: ids, store: store, validator: &world.ScriptedValidator{}})
+	// half of the runs: the statement that applies is scoped to the repository and comes second, after a
+	// wildcard statement of the opposite disposition
+	decoy := p.W("decoy") == 1
+	var scopes []string
+	if decoy {
+		scopes = []string{c10Repo}
+	}
+	v, err := buildVerifier(vcfg{level: level, stores: stores, identities: ids, store: store, validator: &world.ScriptedValidator{}, decoy: decoy, scopes: scopes})
 	if err != nil {
 		res.Violate("HARNESS/verifier", "", "%v", err)
 		return res
@@ -172,7 +179,7 @@ func c10Real(env *core.Env) *core.Result {
 			fetchFault = true
 		}
 	}
-	key := fmt.Sprintf("real-stack N=%d ref=%d skip=%d listing=%v pageSize=%d faults=%v", N, p.W("ref"), p.W("skip"), flat, pageSize, p.Faults)
+	key := fmt.Sprintf("real-stack decoy=%v N=%d ref=%d skip=%d listing=%v pageSize=%d faults=%v", decoy, N, p.W("ref"), p.W("skip"), flat, pageSize, p.Faults)
 	verdict := "ok"
 	if verr != nil {
 		verdict = "err"
